@@ -14,6 +14,8 @@ use futures::FutureExt as _;
 use super::{spawner::Spawner, *};
 
 use crate::{Addr, environment::Environment};
+#[cfg(feature = "verif")]
+use crate::verif::async_lock_shim as async_lock;
 
 type AnyBox = Box<dyn Any + Send + Sync>;
 
